@@ -26,6 +26,8 @@ from symx.harness import frac_json, from_frac_json, patched, src_info, zand, zor
 from symx.sym import HarnessError, Sym
 
 from checks import algo as A
+from checks import runs
+from checks.runs import run_task  # noqa: F401 (task entry point)
 
 PROPERTY = "C04"
 PI = Fraction(math.pi)
@@ -228,6 +230,8 @@ def _amin(cls_name, m):
 def replay(case):
     """numerical confirmation of a refuted schedule: exact tails (scipy) summed over the horizon"""
     from scipy import stats
+    if case.get("kind") in ("crash", "runstep"):
+        return runs.replay(case)
     cls_name, ctype, m = case["cls"], case.get("ctype"), case["m"]
     if "t" not in case:
         return {"reproduced": True, "detail": "structural claim refuted: " + str(case)}
@@ -304,6 +308,14 @@ def tasks(tier, seed):
         ts.append({"id": f"negative_control[{cls},{(ct or '')[5:9]}]", "fn": "schedule_task",
                    "args": {"cls_name": cls, "ctype": ct, "kind": kind, "cprime": cp, "order": order, "m": 2,
                             "contraction": 64, "tier": tier}})
+    # premise of the bandit schedules: the radius of round t is computed for a mean of t samples, so every design
+    # whose region is rebuilt in round t (the active designs, PaVeBa: S ∪ U) must have been observed in each round
+    from symx.harness import cone_set
+    W = dict(cone_set("quick", dims=(2,)))["orthant2"].tolist()
+    for cls in ("PaVeBa", "Auer"):
+        ts.append({"id": f"run[{cls}]", "fn": "run_task",
+                   "args": {"cls_name": cls, "ctype": None, "cone": "orthant2", "W": None if cls == "Auer" else W, "N": 2,
+                            "steps": 2 if tier == "quick" else 3, "batch": 1, "prop": "C04", "tier": tier}, "weight": 20})
     return ts
 
 
@@ -317,6 +329,8 @@ def meta(tier):
                                                     cr.RectangularConfidenceRegion.update, cr.EllipsoidalConfidenceRegion.update),
             "bounds": {"m": "2..3 quick / 2..6 thorough (PaVeBaPartialGP ellipsoid: 2..4 — for m ≥ 5 the bound used here is too "
                        "crude to decide, stated)", "t, K, δ, noise variance": "unbounded reals in their domains (Auer: variance ≤ 1)"},
+            "structural premise": "PaVeBa / Auer runs of 2 designs, 2 rounds (3 thorough) from the initial state: every active "
+                                  "design is observed exactly once per round (so a region rebuilt in round t averages t samples)",
             "stubs": ["np.log of a symbolic argument: opaque ℓ with the recorded argument A, A > 0, ℓ ≥ ln(A_min) (A ≥ A_min is "
                       "proved on the extracted term), A ≥ Σ_{k≤n} ℓ^k/k!"],
             "assumptions": ["TRUSTED ANALYTIC BASE: sample mean of t i.i.d. N(μ,σ²I) observations is N(μ,σ²/t·I); GP posterior at a "
